@@ -114,6 +114,8 @@ def run():
 
     def cl_names(case):
         # F18, F32, F31, F33, F33b are FIXED (68466ba, b5c2cd4, 75c6718, 99a89d3, 6cdd79f): nothing excuses them any more
+        if case.get("kind") == "format-tokens" and any("\\" in n for n in case.get("names", [])) and '"' in case.get("unformatted", ""):
+            return "C09-N1-sqlformat-splits-backslash-identifier"
         return None
 
     # ------------------------------------------------------------ names
@@ -199,6 +201,32 @@ def run():
                 ck.disagreement("on %s the text %r emitted for the name %r denotes %r" % (d, txt, n, mv), {"kind": "denotes", "names": [n], "dialect": d, "text": txt, "denotes": mv}, cl_names)
     except RuntimeError as ex:
         ck.coverage["model_eval_error_den"] = str(ex)[-400:]
+
+    # the default of prqlc (Options::format = true, `prqlc compile` without --no-format) runs the SQL text through the
+    # sqlformat crate: the formatted text must have the same tokens (Model/SqlLex.v) as the unformatted one, for every name
+    fdial = ["sqlite", "postgres", "mysql"] if not ck.thorough else ["sqlite", "postgres", "mysql", "mssql", "duckdb", "bigquery"]
+    freqs = [{"src": "from t | select {this.%s, y = 1}" % bt(n), "target": "sql." + d, "format": f} for n in names for d in fdial for f in (False, True)]
+    fans = harness("compile", freqs)
+    try:
+        pairs = []
+        k = 0
+        for n in names:
+            for d in fdial:
+                a0, a1 = fans[k], fans[k + 1]; k += 2
+                if "ok" in a0 and "ok" in a1:
+                    pairs.append((n, d, a0["ok"], a1["ok"]))
+                else:
+                    ck.violation("select of %r with / without formatting does not compile for %s" % (n, d), {"kind": "format-tokens", "name": n, "dialect": d, "answers": [a0, a1]})
+        B = 40
+        fv = [x for v in coq_eval(HEADER, ["[" + "; ".join("(map tok_view (sql_lex std_sql %s), map tok_view (sql_lex std_sql %s))" % (coq_codes(u), coq_codes(f)) for _, _, u, f in pairs[i:i + B]) + "]"
+                                           for i in range(0, len(pairs), B)]) for x in v]
+        for (n, d, u, f), (tu, tf) in zip(pairs, fv):
+            ck.count("format-tokens", d + "|" + n, nontrivial=("\\" in n or '"' in n))
+            if tu != tf:
+                ck.disagreement("formatting changes the tokens of the SQL for the name %r on %s: %r -> %r" % (n, d, u, f),
+                                {"kind": "format-tokens", "names": [n], "dialect": d, "unformatted": u, "formatted": f}, cl_names)
+    except RuntimeError as ex:
+        ck.coverage["model_eval_error_format"] = str(ex)[-400:]
 
     # multi-part names (translate_ident): model emit_path vs prqlc for `from P1.P2[.P3] | select {this.C}`, all dialects;
     # the reading-side model must read prqlc's own text back as exactly the parts
